@@ -490,6 +490,45 @@ def check_references(files, g: "Gen", rnd: random.Random, mode=0):
             if got != key:
                 return {"problem": "a reported reference does not resolve to the declaration", "entity": d.name, "declared_at": key,
                         "reference": pos, "line": files[pos[0]].split("\n")[pos[1]], "resolves_to": got}, len(plan)
+        # rename of the first entity: edits are exactly its references; the edited program resolves every occurrence
+        # to the renamed declaration
+        if plan:
+            rid, key, d, col = plan[0]
+            r0 = by_id.get(rid, {})
+            refs = sorted((x["uri"].rsplit("/", 1)[-1], x["range"]["start"]["line"], x["range"]["start"]["character"],
+                           x["range"]["end"]["character"]) for x in (r0.get("result") or []))
+            srv.handle({"jsonrpc": "2.0", "id": 77777, "method": "textDocument/rename",
+                        "params": {"textDocument": {"uri": ws.uri(d.file)}, "position": {"line": d.line, "character": col},
+                                   "newName": "zz_renamed"}})
+            rr = [m for m in parse_out(rw.out) if m.get("id") == 77777]
+            changes = (rr[-1].get("result") or {}).get("changes", {}) if rr else {}
+            edits = sorted((u.rsplit("/", 1)[-1], e["range"]["start"]["line"], e["range"]["start"]["character"], e["range"]["end"]["character"])
+                           for u, es in changes.items() for e in es)
+            if edits != refs or any(e["newText"] != "zz_renamed" for es in changes.values() for e in es):
+                return {"problem": "rename edits are not exactly the references", "entity": d.name, "references": refs, "edits": edits}, len(plan)
+            new_files = {}
+            for f, text in files.items():
+                lines = text.split("\n")
+                for (ef, ln, c0, c1) in sorted([e for e in edits if e[0] == f], key=lambda e: (e[1], -e[2])):
+                    lines[ln] = lines[ln][:c0] + "zz_renamed" + lines[ln][c1:]
+                new_files[f] = "\n".join(lines)
+            ws2 = Workspace(new_files)
+            try:
+                msgs2 = [{"jsonrpc": "2.0", "method": "textDocument/didOpen", "params": {"textDocument": {"uri": ws2.uri(n)}}} for n in new_files]
+                for k2, (ef, ln, c0, c1) in enumerate(edits):
+                    msgs2.append({"jsonrpc": "2.0", "id": 500 + k2, "method": "textDocument/definition",
+                                  "params": {"textDocument": {"uri": ws2.uri(ef)}, "position": {"line": ln, "character": c0 + 1}}})
+                srv2, out2 = session(ws2, msgs2)
+                by2 = {m["id"]: m for m in out2 if "id" in m}
+                for k2, (ef, ln, c0, c1) in enumerate(edits):
+                    res = by2.get(500 + k2, {}).get("result")
+                    got = (res["uri"].rsplit("/", 1)[-1], res["range"]["start"]["line"]) if res else None
+                    if got != key:
+                        return {"problem": "after applying the rename an occurrence no longer resolves to the renamed declaration",
+                                "entity": d.name, "declared_at": key, "occurrence": (ef, ln, new_files[ef].split("\n")[ln]),
+                                "resolves_to": got}, len(plan)
+            finally:
+                ws2.close()
         return None, len(plan)
     finally:
         ws.close()
